@@ -2,38 +2,30 @@
 
 Decided by: Coq theorems (coq/theories/C14/Property.v, all "Closed under the global context") about an
 executable Gallina model of the code as it exists (C14/Model.v), tied to /repo on every run by a
-correspondence check (the real PassBase.__call__/Sequential/PassManager/functionalize, call_onnx_api and four
+correspondence check (the real PassBase.__call__/Sequential/PassManager/functionalize, call_onnx_api and five
 built-in passes are run on generated inputs; their observations are embedded in case files that Coq evaluates
 against the model with vm_compute), plus a property oracle (public API only) run over EVERY built-in pass,
 random Sequential/PassManager/functionalize compositions and injected faults at the ONNX boundary.
 
-Theorems (Property.v)
-  full strength, all pass terms / all states:
-    C14_identity                 result object = input object iff declared in-place (prims with ANY effect and any
-                                 scripted misbehaviour, Sequential, PassManager, functionalize)
-    C14_sequential_modified      Sequential: members chained, flag = OR of member flags
-    C14_manager_modified         PassManager: flag = OR over rounds, <= steps rounds, early-stop shape of the trace
-    C14_manager_converges        PassManager + measure hypothesis on a round -> ends with a round reporting False,
-                                 after <= measure modifying rounds  (+ C14_manager_round_of_pass: satisfiable)
-    C14_converges_generic        pass E, True => measure drops, invariant established by one application under
-                                 which False => unchanged  ->  within measure+1 rounds: False and changes nothing
-    C14_functionalize_fresh_and_pure
-    C14_analysis_readonly_fixed  the REPAIRED call_onnx_api (proposed_fixes/C14-call-onnx-api.diff) leaves inputs,
-                                 initializer order and every value unchanged for every outcome of serialization/call
-    C14_flag_sound_inits_inputs / C14_converges_inits_inputs  (Add/RemoveInitializers(To/From)Inputs: full)
-    C14_converges_clear, C14_converges_dce (measure nodes+initializers, bound size+1), C14_converges_toposort
-    C14_api_post_state           exact state after call_onnx_api as written when serialization succeeded
-  partial (full statement in Property.v comments; what is missing = exactly the refuted sites):
-    C14_analysis_readonly_partial   (needs: serialization succeeded, nothing stripped, shapes/dtypes present)
-    C14_flag_sound_clear_partial    (needs: no node doc string)
-    C14_flag_sound_dce_partial      (needs: no trailing None inputs; flat graphs, no optional-output trimming)
-    C14_flag_sound_toposort_partial (needs: no subgraphs; sort abstract, length preserving)
-  refuted, witness by vm_compute, replayed on the implementation every run (known findings):
-    C14_analysis_readonly_order_refuted / _shape_refuted / _serialization_refuted,
-    C14_flag_sound_clear_refuted, C14_flag_sound_dce_refuted, C14_flag_sound_toposort_refuted
-  Print Assumptions: every theorem closed under the global context.  ck.level = "proof" for (a),(c) and the
-  infrastructure; the full-strength (b)/(e) statements are REFUTED for the code as written (findings), proved for
-  the complement of the refuted sites.
+Theorems (Property.v) — all at full strength since the fix commits 0346f88, fce58f3, 16a8fe8, 733a9c1:
+  (a) C14_identity                 result object = input object iff declared in-place (primitive passes with ANY
+                                   effect and any scripted misbehaviour, Sequential, PassManager, functionalize)
+      C14_sequential_modified      Sequential: members chained, flag = OR of member flags
+      C14_manager_modified         PassManager: flag = OR over rounds, <= steps rounds, early-stop shape of the trace
+      C14_functionalize_fresh_and_pure
+  (c) C14_manager_converges        PassManager + measure hypothesis on a round -> ends with a round reporting False
+                                   after <= measure modifying rounds (+ C14_manager_round_of_pass: satisfiable)
+      C14_converges_generic        pass E, True => measure drops, invariant established by one application under
+                                   which False => unchanged  ->  within measure+1 rounds: False and changes nothing
+  (e) C14_analysis_readonly        call_onnx_api leaves graph inputs, initializer ORDER and every value (tensor
+                                   object, shape, dtype) unchanged for EVERY outcome of serialization and of the
+                                   ONNX call (both are section variables that may raise); C14_analysis_outcome
+  (b)+(c) per modelled pass: C14_flag_sound_{clear,dce,toposort,inits_inputs} (modified=False -> state unchanged) and
+      C14_converges_{clear,dce,toposort,inits_inputs} (dce: explicit measure nodes+initializers+untrimmed nodes,
+      bound measure+1; the others idempotent: second round reports False and changes nothing)
+  history: C14_history_before_fixes — the models of the code BEFORE the fix commits violate (e)/(b) on six
+      witnesses and the current models do not (the witnesses are corpus cases replayed on the implementation).
+  Print Assumptions: every theorem closed under the global context.  ck.level = "proof".
 
 Tie (correspondence, inside Coq via case files; any disagreement = broken correspondence -> search):
   infra   ScriptPass objects (declared in_place/changes_input, effect on a counter kept in the model, returns
@@ -50,11 +42,16 @@ Oracle (the property, public accessors only; _c14_impl.oracle_run): each pass up
   following round changes nothing; I1-I6 link consistency, sorted stays sorted, names needed by serialization kept,
   serializable stays serializable; analysis passes (CheckerPass always, ShapeInferencePass when inference fails
   or raises) leave a deep snapshot (initializer order, const_value identity, inputs, shapes, types) unchanged.
+  Faults: onnx.checker.check_model / onnx.shape_inference.infer_shapes rebound to raise; a LazyTensor whose
+  evaluation raises during serialization.  Scripted infra oracle: identity rule and PassManager convergence
+  (C14_manager_converges) on the real PassManager.
 
 Readings of ambiguous English (weaker reading taken):
   * "size of the model" = nodes + node inputs/outputs + graph inputs/outputs + initializers + opset imports +
     functions + 1 (generous); the bound is size+2 rounds.
   * "changes nothing" after the first False round = the next round reports False and serializes byte-equal.
+  * convergence is required of every built-in pass on its own (and of functionalize(P)); an arbitrary
+    Sequential/PassManager composition may oscillate (Remove- then AddInitializersToInputs) - not required.
   * "names needed for serialization" = non-empty names of graph i/o and node inputs stay non-empty, and a model
     that serialized before still serializes; uniqueness of names is C15's business.
   * link consistency: I1 both directions, I2, I3, I4 flags, I5, I6 + no node input/graph output that no graph in
@@ -62,15 +59,23 @@ Readings of ambiguous English (weaker reading taken):
     I1, not reported.
   * a transformation pass that raises (invalid model, cyclic function, lazy tensor) is outside the contract
     (C06); only analysis passes must leave the model unchanged when they raise.
-Modelled, not verified: Graph.sort (C12; abstract `sort`), traversal order of RecursiveGraphIterator (clear model is
-  over the list of visited graph-likes), ONNX schema lookups (optional-output trimming of DCE is outside the flat
-  model; covered by the oracle only), Model.clone (C13), serialization itself (C02/C03; here a byte string).
-  The remaining built-in passes (CSE, dedup, identity elimination, inliner, lifting, NameFix, OutputFix, default
-  attributes, unused functions/opsets, shape inference merge) are covered by the oracle only, not modelled.
+Modelled, not verified: Graph.sort (C12; abstract `sort`), traversal order of RecursiveGraphIterator (the clear model
+  is over the list of visited graph-likes; the toposort flag model uses "recursive sequences equal iff every node
+  list equal"), ONNX schema lookups (optional-output trimming of DCE is outside the flat model; oracle only),
+  Model.clone (C13), serialization itself (C02/C03; here a byte string), Sequential([]) (ValueError at construction;
+  never generated).  The remaining built-in passes (CSE, dedup, identity elimination, inliner, lifting, NameFix,
+  OutputFix, default attributes, unused functions/opsets, shape-inference merge) are covered by the oracle only.
 
-Known findings (known_findings.d/C14.json; proposed fixes in proposed_fixes/C14-*.diff) — see replay_known().
+Findings (all repaired; known_findings.d/C14.json status "fixed"; witnesses in corpus/C14 run as ordinary cases;
+  proposed_fixes/C14-*.diff are the patches that were committed):
+  0346f88 call_onnx_api: initializer order changed (i0,i1,i2 -> i1,i2,i0), shape/dtype filled in, model damaged
+          when serialization raised (serialize_model was outside the try)
+  fce58f3 ClearMetadataAndDocStringPass / 16a8fe8 RemoveUnusedNodesPass / 733a9c1 TopologicalSortPass:
+          modified=False although the serialized model changed
+  The attribution machinery for known findings (KNOWN_DIFFS / attribute / replay_known) stays in place: with no
+  finding of status "known" every oracle failure is a VIOLATION.
 
-Mutants tried (scratch worktree, VERIF_REPO): see MUTANTS at the end of this file.
+Mutants tried (scratch worktree /tmp/wt-C14, VERIF_REPO): see MUTANTS at the end of this file.
 """
 
 from __future__ import annotations
@@ -563,7 +568,10 @@ def _coq_cases(ck, tag: str, ctype: str, agree: str, terms: list[str]) -> list[i
         texts.append((f"cases_{tag}_{j}", CASE_HEADER + f"Definition cases : list ({ctype}) :=\n  {body}.\n"
                       f"Eval vm_compute in (failing {agree} cases).\n"))
     out = []
-    for j, (rc, o) in enumerate(ck.coq_eval_many(texts)):
+    import concurrent.futures as cf
+    with cf.ThreadPoolExecutor(max_workers=4) as ex:      # at most 4 coqc at a time
+        results = list(ex.map(lambda t: ck.coq_eval(t[1], t[0], 900), texts))
+    for j, (rc, o) in enumerate(results):
         if rc != 0:
             raise RuntimeError(f"case file cases_{tag}_{j} did not compile:\n{o[-3000:]}")
         out += [j * 300 + i for i in common.parse_nat_list(o)]
@@ -608,12 +616,6 @@ def correspondence(ck, scale: int) -> dict:
         if i < 2:
             ck.sample({"family": "infra", "term": t, "c0": c0, "observed": obs})
     fam["infra"] = (cases, terms, T_INFRA, "infra_agree")
-    fixed = {k["key"] for k in ck._known if k.get("status") == "fixed"}
-    api_fixed = {"api-initializer-order", "api-shape-dtype-filled", "api-serialize-outside-try"} <= fixed
-    ck.coverage["model_variants"] = {
-        "call_onnx_api": "fixed" if api_fixed else "as-written", "clear": "fixed" if "clear-docstring-uncounted" in fixed else "as-written",
-        "dce": "fixed" if "dce-trim-uncounted" in fixed else "as-written",
-        "toposort": "fixed" if "toposort-subgraph-uncounted" in fixed else "as-written"}
     # ---- call_onnx_api
     cases, terms = [], []
     for i in range(400 * scale):
@@ -637,7 +639,7 @@ def correspondence(ck, scale: int) -> dict:
             ck.nontriv(("api", case))
         if i < 1:
             ck.sample({"family": "api", "case": case, "observed": obs})
-    fam["api"] = (cases, terms, T_API, "api_agree_fixed" if api_fixed else "api_agree")
+    fam["api"] = (cases, terms, T_API, "api_agree")
     # ---- clear / topo / io on the rich model family
     c_cl, t_cl, c_tp, t_tp, c_io_, t_io = [], [], [], [], [], []
     for i in range(300 * scale):
@@ -691,8 +693,8 @@ def correspondence(ck, scale: int) -> dict:
             t_io.append(f"({cbool(is_add)}, {c_io(before)}, ({c_io(after)}, {cbool(res.modified)}))")
             if before != after:
                 ck.nontriv(("io", is_add, before))
-    fam["clear"] = (c_cl, t_cl, T_CLEAR, "clear_agree_fixed" if "clear-docstring-uncounted" in fixed else "clear_agree")
-    fam["topo"] = (c_tp, t_tp, T_TOPO, "topo_agree_fixed" if "toposort-subgraph-uncounted" in fixed else "topo_agree")
+    fam["clear"] = (c_cl, t_cl, T_CLEAR, "clear_agree")
+    fam["topo"] = (c_tp, t_tp, T_TOPO, "topo_agree")
     fam["io"] = (c_io_, t_io, T_IO, "io_agree")
     # ---- dce on flat graphs
     cases, terms = [], []
@@ -711,7 +713,7 @@ def correspondence(ck, scale: int) -> dict:
             ck.nontriv(("dce", before))
         if i < 1:
             ck.sample({"family": "dce", "spec": spec, "before": before, "after": after, "modified": res.modified})
-    fam["dce"] = (cases, terms, T_DCE, "dce_agree_fixed" if "dce-trim-uncounted" in fixed else "dce_agree")
+    fam["dce"] = (cases, terms, T_DCE, "dce_agree")
     fam["direct_failures"] = direct_failures
     return fam
 
@@ -811,6 +813,10 @@ def report(ck, records: list[dict]) -> None:
         except Exception:  # noqa: BLE001
             small = rec["spec"]
         r = I.oracle_run(small, rec["pass"], rec["fault"])
+        dg = common.digest([small, rec["pass"], rec["fault"]])
+        if dg in seen:
+            continue
+        seen.add(dg)
         ck.violation({"kind": "oracle", "spec": small, "pass": rec["pass"], "fault": rec["fault"],
                       "failures": r["failures"], "rounds": r["rounds"], "broken": ck.broken_items})
 
@@ -837,7 +843,7 @@ def run(ck) -> None:
     ck.assumptions += ["onnx/numpy/protobuf as installed in /venv", "SerializeToString(deterministic=True) is a function of the proto"]
     ck.coverage["rule"] = ("non-trivial = a pass round that modifies the model, a composition (Sequential/PassManager/"
                            "functionalize), an ONNX-boundary fault, an initializer that call_onnx_api strips")
-    scale = 1 if not ck.thorough else 8
+    scale = 1 if not ck.thorough else 20
     generate(ck)
     ck.prove()
     # corpus first
@@ -928,5 +934,34 @@ def replay(rp: dict) -> int:
 
 
 MUTANTS = """
-(filled in at the end of development; see the module docstring of the final report)
+Hand-made mutants of /repo (scratch worktree /tmp/wt-C14 at the fixed HEAD, VERIF_REPO, ./check C14 quick, seed 0).
+All reported VIOLATION; "replay" = a concrete failing input found by the oracle, "corr" = which correspondence broke.
+ M1  PassBase.__call__: `if not self.in_place and result.model is model` check dropped
+       -> corr infra + replay (oracle-infra: functional pass term returned its input object)
+ M2  PassManager.call: `overall_modified = modified` (flag of the last step only)
+       -> corr infra + replay (mgr[...] reports False, serialization changed)
+ M3  PassManager.call: early-stop condition inverted (`if modified and self.early_stop`)
+       -> corr infra + replay (oracle-infra: PassManager over measure-decreasing passes stopped before the fixpoint)
+ M4  call_onnx_api: inputs restored off by one (`[: original_inputs_len + 1]`)
+       -> corr api + replay (Checker: readonly/flag, diff g0:inputs)
+ M5  call_onnx_api: `nbytes > LIMIT` -> `>=`   (tried before the fixes: corr api broke, no failing input since the only
+       effect was a reorder already recorded as known; after fix 0346f88 the change is unobservable in the model's
+       final state and not a contract violation -> equivalent mutant for C14)
+ M6  RemoveUnusedNodesPass: removed initializers not counted -> corr dce + replay (flag, diff g0:initializers)
+ M7  IdentityEliminationPass: returns False after eliminating (pass NOT modelled) -> replay by the oracle (flag, node-set)
+ M8  functionalize: `self._inner_pass(model)` without clone -> corr infra + replay (fun RemoveUnusedNodes: identity,
+       functional pass raised PassError and left its input changed) [first run: no-failing-input-found; the oracle
+       clause "a functional pass leaves its input unchanged also when it raises" was added because of this mutant]
+ M10 AddInitializersToInputsPass: `modified=count > 1` -> corr io + replay (flag, diff g0:inputs)
+ M11 call_onnx_api: serialize_model moved back before the try (reverts part of 0346f88)
+       -> corr api + replay (Checker with a raising LazyTensor: readonly-on-raise, initializers/inputs/const_value)
+ M12 call_onnx_api: `initializer.shape = shape` dropped -> corr api + replay (flag/readonly, g0:value:shape@init)
+ M13 call_onnx_api: `initializers.clear()` dropped -> corr api + replay (flag/readonly, g0:initializer-order)
+ M14 RemoveUnusedNodesPass: trailing-input trim not counted (reverts 16a8fe8) -> corr dce + replay (flag, inputs-trimmed)
+ M15 TopologicalSortPass: main graph compared at top level only (reverts 733a9c1 partly) -> corr topo + replay (flag, g1:node-order)
+ M16 ClearMetadataAndDocStringPass: graph doc string not cleared (flag True every round)
+       -> corr clear + replay (fixpoint: no round with modified=False within size+2 rounds)
+Also checked: with the four fix commits reverted (old HEAD 823601c) the check reported the six findings
+(KNOWN-FINDING while they were status "known"); with the fixes applied and the old models it reported every
+finding stale + broken correspondences (no false VIOLATION input in 26k oracle evaluations).
 """
